@@ -145,6 +145,112 @@ fn c19c_stale_handle() {
     assert!(!ok && last_error() == ERROR_INVALID_HANDLE && n == 99, "read through a closed handle");
 }
 
+// ------------------------------------------------------------------ C19.a info / size queries on a fabricated open file
+#[repr(align(8))]
+struct Aligned([u8; 24]);
+
+/// SFileGetFileInfo on a file handle: nothing is written beyond buffer_size (or at all on failure), the value is the
+/// file's size / cursor, size_needed is 8 for the two supported classes
+#[kani::proof]
+#[kani::unwind(10)]
+#[kani::stub(std::fmt::format, vio::fmt_stub)]
+#[kani::stub(std::hash::RandomState::new, rs_stub)]
+fn c19a_file_info_step() {
+    let data: [u8; 3] = kani::any();
+    let pos: usize = kani::any();
+    kani::assume(pos <= 3);
+    install_file(7, &data, pos);
+    let mut buf = Aligned([0xA5u8; 24]);
+    let class: u32 = kani::any();
+    let size: u32 = kani::any();
+    kani::assume(size <= 16);
+    let mut needed: u32 = 77;
+    let use_needed: bool = kani::any();
+    let ok = unsafe {
+        SFileGetFileInfo(7 as HANDLE, class, buf.0.as_mut_ptr() as *mut c_void, size,
+                         if use_needed { &mut needed } else { std::ptr::null_mut() })
+    };
+    let i: usize = kani::any();
+    kani::assume(i < 24);
+    if i >= size as usize {
+        assert!(buf.0[i] == 0xA5, "info query wrote beyond the caller's buffer size");
+    }
+    kani::cover!(ok && class == SFILE_INFO_POSITION);
+    kani::cover!(!ok && last_error() == ERROR_INSUFFICIENT_BUFFER);
+    if ok {
+        assert!(class == SFILE_INFO_FILE_SIZE || class == SFILE_INFO_POSITION, "unsupported info class answered");
+        assert!(size >= 8, "8-byte answer written into a smaller buffer");
+        let v = u64::from_le_bytes([buf.0[0], buf.0[1], buf.0[2], buf.0[3], buf.0[4], buf.0[5], buf.0[6], buf.0[7]]);
+        assert!(v == if class == SFILE_INFO_FILE_SIZE { 3 } else { pos as u64 }, "info query answers another value than the file's size / cursor");
+        assert!(!use_needed || needed == 8);
+    } else {
+        assert!(buf.0[i] == 0xA5, "failed info query wrote to the caller's buffer");
+        if class == SFILE_INFO_FILE_SIZE || class == SFILE_INFO_POSITION {
+            assert!(size < 8 && last_error() == ERROR_INSUFFICIENT_BUFFER && (!use_needed || needed == 8), "info query with a sufficient buffer failed");
+        } else {
+            assert!(last_error() == ERROR_NOT_SUPPORTED && needed == 77);
+        }
+    }
+}
+
+/// SFileGetFileSize: low/high halves of the length, high pointer optional
+#[kani::proof]
+#[kani::unwind(10)]
+#[kani::stub(std::fmt::format, vio::fmt_stub)]
+#[kani::stub(std::hash::RandomState::new, rs_stub)]
+fn c19a_file_size_step() {
+    let data: [u8; 3] = kani::any();
+    install_file(7, &data, kani::any::<usize>() % 4);
+    let mut hi: u32 = 55;
+    let use_hi: bool = kani::any();
+    let lo = unsafe { SFileGetFileSize(7 as HANDLE, if use_hi { &mut hi } else { std::ptr::null_mut() }) };
+    kani::cover!(lo == 3);
+    assert!(lo == 3 && last_error() == ERROR_SUCCESS, "file size differs from the content length");
+    assert!(hi == if use_hi { 0 } else { 55 }, "high half of the size");
+    // a second handle is unaffected by closing the first
+    install_file(8, &data, 1);
+    assert!(SFileCloseFile(7 as HANDLE));
+    let lo8 = unsafe { SFileGetFileSize(8 as HANDLE, std::ptr::null_mut()) };
+    let lo7 = unsafe { SFileGetFileSize(7 as HANDLE, std::ptr::null_mut()) };
+    assert!(lo8 == 3, "closing one file handle invalidated another");
+    assert!(lo7 == 0xFFFF_FFFF && last_error() == ERROR_INVALID_HANDLE, "closed handle still answers");
+}
+
+// ------------------------------------------------------------------ C19.a/c archive-level steps on a fabricated archive
+fn install_archive(id: usize, path: &str) {
+    let a = wow_mpq::archive::verif_kani_archive::verif_empty_archive();
+    ARCHIVES.lock().unwrap().insert(id, ArchiveHandle::ReadOnly { archive: a, path: path.to_string() });
+}
+
+/// SFileGetArchiveName: succeeds exactly when the buffer holds the path and its NUL; never writes beyond buffer_size
+#[kani::proof]
+#[kani::unwind(10)]
+#[kani::stub(std::fmt::format, vio::fmt_stub)]
+#[kani::stub(std::hash::RandomState::new, rs_stub)]
+fn c19a_archive_name_fit() {
+    install_archive(3, "a.mp");
+    let mut buf = [0x5Au8; 8];
+    let size: u32 = kani::any();
+    kani::assume(size <= 8);
+    let ok = unsafe { SFileGetArchiveName(3 as HANDLE, buf.as_mut_ptr() as *mut c_char, size) };
+    let i: usize = kani::any();
+    kani::assume(i < 8);
+    if i >= size as usize {
+        assert!(buf[i] == 0x5A, "archive name written beyond the caller's buffer size");
+    }
+    kani::cover!(ok && size == 5);
+    kani::cover!(!ok && size == 4);
+    if ok {
+        assert!(size >= 5, "name + NUL reported as fitting a smaller buffer");
+        assert!(buf[0] == b'a' && buf[1] == b'.' && buf[2] == b'm' && buf[3] == b'p' && buf[4] == 0, "archive name differs from the path it was opened with");
+    } else {
+        assert!(size < 5, "sufficient buffer refused");
+        assert!(buf[i] == 0x5A, "failed call wrote to the caller's buffer");
+        assert!(last_error() == if size == 0 { ERROR_INVALID_PARAMETER } else { ERROR_INSUFFICIENT_BUFFER });
+    }
+    std::mem::forget(ARCHIVES.lock().unwrap().remove(&3));
+}
+
 #[kani::proof]
 #[kani::unwind(8)]
 #[kani::stub(std::fmt::format, vio::fmt_stub)]
